@@ -7,3 +7,4 @@ import JaxVerif.Properties.C12
 #print axioms JV.C12_facts_matter
 #print axioms JV.C12_no_other_state
 #print axioms JV.C12_source_flags
+#print axioms JV.C12_source_flag_cell
